@@ -2,6 +2,7 @@ import Pcore.Proofs.SerPlain
 import Pcore.Proofs.SerB64
 import Pcore.Proofs.SerShared
 import Pcore.Proofs.SerArms
+import Pcore.Proofs.SpanCodec
 import Pcore.Generated.SerArms
 /-!
 # C10 — Rich-data serialization round-trips under every option and consumer capability
@@ -38,7 +39,10 @@ Full statement / proved / missing
                                        `__ptype`): known finding C10-reserved-ptype-key, negation `C10_reserved_key_collision`;
                                        object instances are of the catalogue's types and their attribute names are
                                        not the reserved keys; and with rich_data=false the value is Data.
-                           The Binary codec is the model's own base64, proved to invert (`unb64_b64`).
+                           Leaf codecs INSIDE the model: Binary = base64, proved to invert (`unb64_b64`); Timespan =
+                           the default format `%D-%H:%M:%S.%-N` as timespantype.go prints and parses it, proved to
+                           invert for every number of nanoseconds (`C10_span_codec`); Regexp = the identity on the
+                           pattern source (that is what the code does; only "the source compiles" is outside).
 * `C10_arms_ok`          — obligation over the table regenerated from serializer.go (second tie): the emit discipline the
                            model executes is the code's; `C10_impl_*` are the theorems instantiated on that table.
 * missing: type definitions that travel in the stream as Pcore::ObjectType instances and are registered by the
@@ -123,6 +127,18 @@ theorem C10_roundtrip_partial (o : Opts) (cp : Caps) (v : V) (hS : Shared (mkCfg
   unfold deserialize serialize
   rw [hc]; simp only []; rw [hr]
 
+/-! ### leaf codecs inside the model -/
+
+/-- the Timespan codec (default format) inverts: parsing what `format` prints gives the duration back, for every number
+    of nanoseconds, negative ones and fractions with leading zeroes included -/
+theorem C10_span_codec (ns : Int) : parseSpan (printSpan ns) = some ns := span_codec ns
+
+/-- so every Timespan has a payload that meets the round-trip theorem's hypothesis -/
+theorem C10_span_canonical (ns : Int) : canonLeaf .ts (printSpan ns) = true := canonSpan_printSpan ns
+
+example : (printSpan (-50000000) == "-0-00:00:00.05") = true ∧ (printSpan 90500000000 == "0-00:01:30.5") = true ∧
+    parseSpan "1-1:2:3.4" = some 90123400000000 := by decide
+
 /-! ### non-vacuity: the hypotheses are satisfiable by a non-trivial DAG, for every option and capability -/
 
 def longStr : String := "a string long enough to be de-duplicated"
@@ -133,7 +149,7 @@ def sampleHash : V :=
   .hash 2 [(.int 1, .str longStr), (.arr 3 [.int 1, .str "k"], .sens 4 (.bin 5 [1, 2, 3])), (.str "s", .dflt)]
 def sampleDag : V :=
   .arr 1 [sampleHash, sampleHash, .str longStr, .leaf 6 .rx "a.*b" "/a.*b/", .leaf 6 .rx "a.*b" "/a.*b/",
-    .leaf 7 .ts "90" "90", .leaf 8 .ts "90" "90", .hash 9 [(sampleHash, .str longStr)]]
+    .leaf 7 .ts "0-00:01:30.5" "90", .leaf 8 .ts "0-00:01:30.5" "90", .hash 9 [(sampleHash, .str longStr)]]
 
 example : ∀ rich bin cplx, sharedB (mkCfg ⟨rich, true, 2⟩ ⟨bin, cplx, 0⟩) sampleDag = true := by decide
 example : sampleDag.noRes = true := by decide
